@@ -118,7 +118,8 @@ def trace_bounded_instance():
     from pb_bss.utils import unsqueeze
 
     def make(B):
-        return {'which': B.choose('which', ['cacgmm', 'cacgmm-continued', 'cwmm', 'gmm-full', 'gmm-diagonal', 'gmm-spherical', 'gcacgmm', 'gcacgmm']),
+        return {'which': B.choose('which', ['cacgmm', 'cacgmm-continued', 'cwmm', 'gmm-full', 'gmm-diagonal', 'gmm-spherical', 'gcacgmm', 'gcacgmm', 'cwmm-sal',
+                                            'cwmm-sal']),
                 'wca': B.choose('wca', [(-1,), -2, (-3,), (-3, -1)]), 'sal': B.choose('sal', [False, True, True]),
                 'K': B.choose('K', [2, 3]), 'D': B.choose('D', [2, 3, 4]), 'n_it': B.choose('n_it', [3, 8, 20, 50]),
                 'seed': B.choose('seed', list(range(5000))), 'd': B.given('d', np.zeros(1))}
@@ -126,6 +127,9 @@ def trace_bounded_instance():
     def call(inp):
         rng = np.random.RandomState(inp['seed'])
         which, K, D, n_it, wca = inp['which'], inp['K'], inp['D'], inp['n_it'], inp['wca']
+        force_sal = which == 'cwmm-sal'          # the Watson mixture with importance weights (20 iterations at most)
+        if force_sal:
+            which, n_it = 'cwmm', min(n_it, 20)
         F = 2
         N = 4 * K * D + int(rng.randint(0, 20))
         cplx = which.startswith('cacgmm') or which in ('cwmm', 'gcacgmm')
@@ -141,6 +145,11 @@ def trace_bounded_instance():
             init = init * rng.uniform(0.5, 2.0, size=(F, 1, N))
         # integer saliency (observation counts), correlated with the clusters
         sal = (1.0 + 3.0 * (lab == 0) * (rng.rand(F, N) < 0.8)) if inp['sal'] else None
+        if force_sal and sal is None:
+            sal = 1.0 + 3.0 * (lab == 0) * (rng.rand(F, N) < 0.8)
+        if (inp['sal'] or force_sal) and (inp['seed'] % 2 or force_sal and inp['seed'] % 4):
+            # fractional importance weights below one (the weighted log-likelihood sum_n s_n log p(y_n) is what EM ascends)
+            sal = rng.uniform(0.15, 1.0, size=(F, N)) * np.where(lab == 0, 1.0, 0.5)
         if which == 'gcacgmm':
             wca = (-1,) if wca == -2 else wca
             sal = None if sal is None else sal
@@ -164,7 +173,9 @@ def trace_bounded_instance():
                 kap = np.asarray(model.complex_watson.concentration)
                 lp = watson_logpdf(z, model.complex_watson.mode, kap)
                 wgt = model.weight
-                guard_ok.append(bool(np.all(kap < 499.0) and np.all(kap > 1e-2)))
+                # the upper end of the spline table clips the ML value (the step is then not an exact M-step); the lower end does not:
+                # a top eigenvalue of 1 / D has the exact ML concentration 0
+                guard_ok.append(bool(np.all(kap < 499.0)))
                 own.append(None)
             elif which.startswith('gmm'):
                 ct = which[4:]
